@@ -27,6 +27,17 @@ def variants(seed):
     # `Name<level>` collision: prec_interleaved generates helper levels for E (levels 0, 3, 7)
     out.append(sugar.rename_grammar(bases["prec_interleaved"], {"Args": "E3", "L": "E0"}, "ren_prec_levels"))
     out.append(sugar.rename_grammar(bases["mac_nested"], {"Pair": "__Pair", "List": "__action1", "Par": "__1", "A": "__A", "B": "__2", "T": "__TOKEN"}, "ren_mac_a"))
+    # two precedence-annotated nonterminals whose generated level names would coincide: `A` level 12 and `A1` level 2 both want `A12`
+    from corpus.sugar import P
+    from corpus.gram import Grammar, NT, Alt
+    from corpus.base import terms, S as SY, A as AL
+    two = Grammar("prec_two", terms("n m + * ( ) ;"), [
+        NT("Top", [AL("Pq", ";", "Qq")], pub=True),
+        NT("Pq", [P(12, "n"), P(12, "(", "Pq", ")"), P(20, "Pq", "+", "Pq", assoc="left")]),
+        NT("Qq", [P(2, "m"), P(3, "Qq", "*", "Qq", assoc="right")]),
+    ], tags=["two precedence-annotated nonterminals"])
+    out.append(two)
+    out.append(sugar.rename_grammar(two, {"Pq": "A", "Qq": "A1"}, "ren_prec_two"))
     # seeded
     for i, name in enumerate(["stmt", "list2", "opt_tail", "mac_forward"]):
         g = bases[name]
